@@ -854,6 +854,11 @@ fn run_c24(variant: usize) -> CaseOut {
     if over_count {
         sim::count("probe:more-files-than-max");
     }
+    // a file part that no map entry mentions: the spec is silent, so rejecting it is as good as ignoring it
+    let unmapped_file = files.iter().any(|f| !map.contains_key(&f.name));
+    if unmapped_file {
+        sim::count("probe:unmapped-extra-file");
+    }
     let ambiguous = max_file_size.map(|m| ops_bytes.len() > m || map_bytes.len() > m).unwrap_or(false)
         || matches!((max_file_size, max_num_files), (Some(a), Some(b)) if body.len() > a * b);
     if ambiguous {
@@ -903,7 +908,7 @@ fn run_c24(variant: usize) -> CaseOut {
     };
     match res {
         Err(e) => {
-            if fault_fired || ambiguous {
+            if fault_fired || ambiguous || unmapped_file {
                 // acceptable
             } else if !expect_reject {
                 out.viol("C24/valid-request-rejected", format!("rejected with {e}, the reference model accepts; {desc}"));
